@@ -6,6 +6,7 @@ use std::path::Path;
 
 use wax::query::{Boundedness, DepthVariance, TextVariance, When};
 use wax::{Any, CandidatePath, Glob, Program};
+use wax::walk::{FileIterator, Not, PathExt, WalkTree};
 
 use crate::case::{self, guarded, Case, PathBudget};
 use crate::ctx::{Ctx, ExprStream, Tier};
@@ -701,6 +702,12 @@ fn vanishing_repetition_exposes_tree(fam: &transform::Family) -> bool {
     })
 }
 
+/// A negation of an (empty) walk by the pattern: the hook `verif_residue` tells whether the
+/// negation would discard an entry with the given root-relative path.
+fn neg_probe<'t, P: wax::Pattern<'t> + Clone>(p: &P) -> Option<Not<WalkTree>> {
+    guarded(|| std::path::Path::new("/nonexistent-waxmon").walk().not(p.clone()).ok()).flatten()
+}
+
 fn c07(case: &Case, ctx: &Ctx, rpt: &mut Report, rng: &mut Rng, stream: &ExprStream, idx: usize) {
     let budget = PathBudget {
         model: 6,
@@ -764,8 +771,41 @@ fn c07(case: &Case, ctx: &Ctx, rpt: &mut Report, rng: &mut Rng, stream: &ExprStr
                             }
                         }
                     }
+                    // The same members as negations of a walk (`not` compiles its own programs
+                    // from the token trees).
+                    let neg_whole = neg_probe(&whole);
+                    let neg_parts: Option<Vec<Not<WalkTree>>> = parts.iter().map(neg_probe).collect();
+                    if neg_whole.is_some() && neg_parts.is_some() {
+                        rpt.bucket("family:negation-route-compared");
+                    }
                     let mut both = (false, false);
                     for p in &paths {
+                        if let (Some(nw), Some(nps)) = (&neg_whole, &neg_parts) {
+                            if let Some(wn) = guarded(|| nw.verif_residue(p.as_str()).is_some()) {
+                                let un = nps.iter().any(|n| guarded(|| n.verif_residue(p.as_str()).is_some()) == Some(true));
+                                rpt.evaluations += 1;
+                                let bad = if fam.exact { wn != un } else { un && !wn };
+                                if bad {
+                                    let key = if has_rep_edge_tree(ast)
+                                        || parse::parse(&fam.whole).map_or(false, |a| has_rep_edge_tree(&a))
+                                    {
+                                        Some("tree-wildcard-at-edge-of-repetition-body-encoded-as-expression-edge")
+                                    }
+                                    else if fam.kind == "repetition-is-iteration" && un && !wn && vanishing_repetition_exposes_tree(&fam) {
+                                        Some("tree-wildcard-next-to-vanishing-repetition-not-encoded-as-edge")
+                                    }
+                                    else {
+                                        None
+                                    };
+                                    rpt.disagreement(
+                                        &ctx.known,
+                                        &format!("{}(as-negations)", fam.kind),
+                                        key,
+                                        json!({"whole": clip(&fam.whole), "parts": fam.parts, "path": clip(p), "not(whole)_discards": wn, "some_not(part)_discards": un, "exact": fam.exact}),
+                                    );
+                                }
+                            }
+                        }
                         let w = match guarded(|| whole.is_match(p.as_str())) {
                             Some(b) => b,
                             None => continue,
@@ -844,6 +884,28 @@ fn c07(case: &Case, ctx: &Ctx, rpt: &mut Report, rng: &mut Rng, stream: &ExprStr
         for p in paths_for(e, g, rng, &budget) {
             if !paths.contains(&p) {
                 paths.push(p);
+            }
+        }
+    }
+    // The combinator as a negation.
+    if let Some(neg) = from_globs.as_ref().and_then(neg_probe) {
+        rpt.bucket("any-route:negation");
+        for p in &paths {
+            let a = match guarded(|| neg.verif_residue(p.as_str()).is_some()) {
+                Some(b) => b,
+                None => continue,
+            };
+            let u = globs
+                .iter()
+                .any(|g| guarded(|| g.is_match(p.as_str())) == Some(true));
+            rpt.evaluations += 1;
+            if a != u {
+                rpt.disagreement(
+                    &ctx.known,
+                    "any-as-negation-is-not-the-union-of-its-patterns",
+                    None,
+                    json!({"patterns": exprs, "path": clip(p), "not(any)_discards": a, "union_matches": u}),
+                );
             }
         }
     }
